@@ -212,6 +212,8 @@ pub use keys::{ed25519_dalek, CombinedKey, CombinedPublicKey};
 
 pub use builder::Builder;
 pub use keys::{EnrKey, EnrKeyUnambiguous, EnrPublicKey};
+#[cfg(enr_verif)]
+pub use keys::SigningError;
 pub use node_id::NodeId;
 use std::marker::PhantomData;
 
